@@ -153,3 +153,45 @@ impl Net {
         }
     }
 }
+
+/// An honest set-up peer joins, serves the given pieces until the client owns them, then disconnects.
+/// Returns true when every requested piece is Have.
+pub async fn seed_pieces(w: &mut World, net: &mut Net, bits: &[bool]) -> bool {
+    use rdest::verif::Status;
+    if !bits.iter().any(|b| *b) {
+        return true;
+    }
+    let s = net.connect(w, false);
+    net.handshake(w, s);
+    net.bitfield(w, s, bits);
+    net.observe(w).await;
+    net.unchoke(w, s);
+    net.observe(w).await;
+    let mut guard = 0;
+    loop {
+        let snap = w.snapshot();
+        let done = bits.iter().enumerate().all(|(i, b)| !*b || snap.statuses[i] == Status::Have);
+        if done {
+            break;
+        }
+        if !net.alive(w, s) || w.fatal().is_some() || guard > 4000 {
+            return false;
+        }
+        guard += 1;
+        if net.answer(w, s, 0).is_none() {
+            // nothing outstanding: give the client a moment
+            w.advance_by(std::time::Duration::from_millis(200)).await;
+            net.fold(w);
+            if guard > 200 && net.peers[s].view.outstanding.is_empty() {
+                return false;
+            }
+            continue;
+        }
+        net.observe(w).await;
+    }
+    if net.alive(w, s) {
+        net.disconnect(w, s);
+        net.observe(w).await;
+    }
+    true
+}
